@@ -179,7 +179,7 @@ def tree(name, L=1, N=2, code=(0, 0, 0), exclude=()):
 
 
 KEYS = ("", "a", "b", "c", "ab", "ca")
-TAGS = {"d3_required": ["errors2"], "d3_required_order2": ["errors2"], "required_many": ["errors2"]}
+TAGS = {"d3_required": ["errors2"], "d3_required_order2": ["errors2"], "required_many": ["errors2"], "arr_tuple": ["errors2"]}
 
 
 def conditions(tier, seed, active):
